@@ -13,6 +13,7 @@
 -/
 import IbcVerif.Model.Bytes
 import IbcVerif.Model.Panic
+import IbcVerif.Model.Dec
 namespace IbcVerif.Abi
 open IbcVerif
 
@@ -166,7 +167,7 @@ def decodeFtpd (data : Bytes) : G Ftpd := do
   let vs ← unpackWrapped ics20Tys data
   match vs with
   | [.dyn denom, .dyn sender, .dyn receiver, .num n, .dyn memo] =>
-      .ok ⟨denom, Nat.toDigits 10 n, sender, receiver, memo⟩
+      .ok ⟨denom, dec n, sender, receiver, memo⟩
   | _ => .err "abi-decoding: failed to parse packet data"
 
 /-! ### GMP packet data and acknowledgement (27-gmp/types/solidity_abi.go) -/
